@@ -173,10 +173,13 @@ def run_halfclose(o, ctx):
     plans = [("P:S:%s,r,e/S:e" % hx(p1), [r200 + ",EOF", "EOF"]),
              ("P:s:%s,r,S:%s,r,e/S:e" % (hx(p1), hx(p1)), [r200 + "," + r200 + ",EOF", "EOF"]),
              ("P:s:%s,r,S:%s,r,e/P:S:%s,r,e/S:e" % (hx(po), hx(p1), hx(po)), ["R200:0:" + hx(b"abc") + "," + r200 + ",EOF", "R200:0:" + hx(b"abc") + ",EOF", "EOF"])]
-    # a connection waiting in the pool's queue is no reason to close a kept-alive one that neither side asked to close
-    plans.append(("P:s:%s,r,|,s:%s,r,s:%s,r,c,e/P:s:%s,|,r,c,e/S:e" % (hx(p1), hx(p1), hx(p1), hx(p1)), [",".join([r200] * 3 + ["EOF"]), r200 + ",EOF", "EOF"]))
     lines = ["SERVE mode=%s threads=%d plan=%s" % (m, th, pl) for pl, _ in plans for m in ("epoll", "serve") for th in (1, 2)]
     wants = [w for _, w in plans for m in ("epoll", "serve") for th in (1, 2)]
+    # a connection waiting in the pool's queue is no reason to close a kept-alive one that neither side asked to close (pool and
+    # thread-per-connection modes; in epoll mode with one worker the same plan runs into the recorded finding K14)
+    over = ("P:s:%s,r,|,s:%s,r,s:%s,r,c,e/P:s:%s,|,r,c,e/S:e" % (hx(p1), hx(p1), hx(p1), hx(p1)), [",".join([r200] * 3 + ["EOF"]), r200 + ",EOF", "EOF"])
+    for m, th in (("serve", 1), ("serve", 2), ("threaded", 1)):
+        lines.append("SERVE mode=%s threads=%d plan=%s" % (m, th, over[0])); wants.append(over[1])
     impl = C.run_sharded(ctx["kimpl"], lines, shards=min(C.NCPU, len(lines)))
     for c, a, w in zip(lines, impl, wants):
         o.evaluations += 1
